@@ -82,13 +82,13 @@ pub(crate) unsafe fn moved_out<T>(rcbox: *mut RcBox<T>, field: u8) {
     if field == FIELD_VALUE {
         hook(
             ptr::addr_of_mut!((*rcbox).value).cast::<u8>(),
-            mem::size_of::<T>(),
+            size_of::<T>(),
             field,
         );
     } else {
         hook(
             ptr::addr_of_mut!((*rcbox).links).cast::<u8>(),
-            mem::size_of_val(&(*rcbox).links),
+            size_of_val(&(*rcbox).links),
             field,
         );
     }
@@ -108,11 +108,11 @@ pub fn box_layout<T>() -> [usize; 5] {
     let base = probe.as_ptr();
     unsafe {
         [
-            mem::size_of::<RcBox<T>>(),
+            size_of::<RcBox<T>>(),
             ptr::addr_of!((*base).links) as usize - base as usize,
-            mem::size_of_val(&(*base).links),
+            size_of_val(&(*base).links),
             ptr::addr_of!((*base).value) as usize - base as usize,
-            mem::size_of::<T>(),
+            size_of::<T>(),
         ]
     }
 }
@@ -126,6 +126,20 @@ pub fn links<T>(this: &Rc<T>) -> Vec<(usize, u8, usize)> {
         .iter()
         .map(|(link, &count)| (link.as_ptr() as usize, kind_code(link.kind()), count))
         .collect()
+}
+
+/// Like [`links`], but writes into `out` instead of allocating. Returns the
+/// number of entries in the table (entries beyond `out.len()` are dropped).
+pub fn links_into<T>(this: &Rc<T>, out: &mut [(usize, u8, usize)]) -> usize {
+    let table = unsafe { this.inner().links().borrow() };
+    let mut n = 0;
+    for (link, &count) in table.iter() {
+        if n < out.len() {
+            out[n] = (link.as_ptr() as usize, kind_code(link.kind()), count);
+        }
+        n += 1;
+    }
+    n
 }
 
 /// Counters of the reachability trace: `[invocations, worklist pops, distinct
